@@ -413,7 +413,11 @@ class _AsyncCallable:
 
 def _not_coroutine_function(k):
     """Callables that are NOT coroutine functions (C09)."""
-    k = k % 6
+    k = k % 7
+    if k == 6:
+        async def real2(*a, **k):
+            return None
+        return (real2, 1)                # a (function, argument) pair: whoever formats an error message with it must cope
     if k == 5:
         async def real(*a, **k):
             return None
@@ -842,6 +846,23 @@ class Sim:
                 g += 1
             inv.gate_no = n
             self._op_point("we", inv)
+            if inv.script.get("end") == "xl" and not inv.probe:
+                # the worker uses the pool itself and does not handle the documented error it gets: cancel() of a task
+                # that is inside its cancel callback (AlreadyCancelled), has ended (AlreadyEnded) or never existed
+                # (InvalidTaskID).  That error is this task's failure - nobody cancelled it.
+                pc = inv.req.pc
+                tgt = next((t.tid for t in pc.tasks if t.state == "C" and t.tid is not None), None)
+                if tgt is None:
+                    tgt = next((t.tid for t in pc.tasks if t.state == "E" and t.forget == 0 and t.tid is not None), None)
+                if tgt is None:
+                    tgt = 987654321
+                try:
+                    pc.pool.cancel(tgt)
+                except Exception as e:
+                    self.injected.append(e)
+                    self.inj_by_pool[pc.idx] += 1
+                    self.stats["fault:worker_fails_with_library_exception:" + type(e).__name__] += 1
+                    raise
             if inv.script.get("end") in ("x", "xg", "xm"):
                 e = WorkerError(f"end r{inv.req.label}#{inv.idx}")
                 if inv.script["end"] != "x":
@@ -1502,6 +1523,14 @@ class Sim:
         self.cur_spawn = req
         exc = None
         ret = None
+        # a request that has to be rejected because of the pool's state (or because func is no coroutine function) made
+        # by synchronous code with NO running event loop (a worker thread, code after the loop has finished): the
+        # check comes before anything needs a loop, so the documented error is what the caller gets
+        noloop = bool(step.get("noloop")) and ctx is None and bool(causes) and (pc.closed or pc.locked or bad == "notcoro")
+        if noloop:
+            from asyncio import events as _events
+            self.stats["probe:rejected_request_without_running_loop"] += 1
+            _events._set_running_loop(None)
         try:
             try:
                 if kind == "start":
@@ -1528,6 +1557,8 @@ class Sim:
                 exc = e
         finally:
             self.cur_spawn = None
+            if noloop:
+                _events._set_running_loop(self.loop)
         if causes:
             self.stats["fault:rejected_request"] += 1
             if exc is None:
@@ -1690,7 +1721,10 @@ class Sim:
             return False
         self.last_cancel_prop = "C06"
         try:
-            pc.pool.cancel(*ids)
+            if step.get("msg") is not None:
+                pc.pool.cancel(*ids, msg=step["msg"])      # (the message for the CancelledError: cancels exactly the same tasks)
+            else:
+                pc.pool.cancel(*ids)
         except Exception as e:
             if not bad_classes:
                 self.violate("C06", "valid_cancel_raised", f"cancel{tuple(ids)} raised {type(e).__name__}: {e}")
@@ -1744,7 +1778,10 @@ class Sim:
         self.last_cancel_prop = "C07"
         before = self._snapshot(pc) if req is None else None
         try:
-            pc.pool.cancel_group(name)
+            if step.get("msg") is not None:
+                pc.pool.cancel_group(name, msg=step["msg"])
+            else:
+                pc.pool.cancel_group(name)
         except Exception as e:
             if req is not None:
                 self.violate("C07", "cancel_group_raised", f"cancel_group({name!r}) raised {type(e).__name__}: {e}")
@@ -1814,7 +1851,10 @@ class Sim:
             return False
         self.last_cancel_prop = "C07"
         try:
-            pc.pool.cancel_all()
+            if step.get("msg") is not None:
+                pc.pool.cancel_all(msg=step["msg"])
+            else:
+                pc.pool.cancel_all()
         except Exception as e:
             self.violate("C07", "cancel_all_raised", f"cancel_all() raised {type(e).__name__}: {e}")
             return True
@@ -2510,6 +2550,10 @@ class Sim:
                 if self.cfg.get("wfilter") == "error":
                     # configuration knob: the process treats warnings as errors (-W error); applied to the library's own
                     warnings.filterwarnings("error", module=r"asyncio_taskpool")
+                    # ... and to what the library issues on behalf of its caller (warnings.warn(..., stacklevel=3) is
+                    # attributed to the module that called the pool method, i.e. to the harness)
+                    warnings.filterwarnings("error", category=UserWarning)
+                    warnings.filterwarnings("error", category=DeprecationWarning)
                 self.warn_list = wlist
                 if source is None:
                     for step in run["steps"]:
